@@ -149,3 +149,68 @@ pub mod resolve {
         super::desc::raw(crate::mmtk::VM_MAP.get_descriptor_for_address(addr))
     }
 }
+
+/// A private `Map32` (the 32-bit-style VM map, also used for compressed-pointer layouts).
+pub mod map32 {
+    use crate::util::heap::layout::verif_private::Map32;
+    use crate::util::heap::layout::VMMap;
+    use crate::util::Address;
+
+    /// `Map32::free_contiguous_chunks_no_lock` clears the *global* `SFT_MAP`; make sure it exists
+    /// (idempotent; same call as `MMTK::new`).
+    pub fn ensure_global_sft_map() {
+        crate::mmtk::SFT_MAP.initialize_once(&crate::policy::sft_map::create_sft_map);
+    }
+
+    /// Wrapper around a private `Map32`.
+    pub struct M32(Map32);
+
+    impl Default for M32 {
+        fn default() -> Self {
+            Self::new()
+        }
+    }
+
+    impl M32 {
+        /// `Map32::new()`
+        pub fn new() -> Self {
+            M32(Map32::new())
+        }
+        /// `finalize_static_space_map(from, to, |_| {})`
+        pub fn finalize(&self, from: Address, to: Address) {
+            self.0.finalize_static_space_map(from, to, &mut |_| {})
+        }
+        /// `allocate_contiguous_chunks(descriptor, chunks, head, None)` with a raw descriptor.
+        pub fn allocate(&self, raw_descriptor: usize, chunks: usize, head: Address) -> Address {
+            unsafe { self.0.allocate_contiguous_chunks(super::desc::from_raw(raw_descriptor), chunks, head, None) }
+        }
+        /// `free_contiguous_chunks(start)`
+        pub fn free(&self, start: Address) -> usize {
+            unsafe { self.0.free_contiguous_chunks(start) }
+        }
+        /// `free_all_chunks(any_chunk)`
+        pub fn free_all(&self, any_chunk: Address) {
+            self.0.free_all_chunks(any_chunk)
+        }
+        /// `get_next_contiguous_region(start)`
+        pub fn next_region(&self, start: Address) -> Address {
+            self.0.get_next_contiguous_region(start)
+        }
+        /// `get_contiguous_region_chunks(start)`
+        pub fn region_chunks(&self, start: Address) -> usize {
+            self.0.get_contiguous_region_chunks(start)
+        }
+        /// `get_available_discontiguous_chunks()`
+        pub fn available(&self) -> usize {
+            self.0.get_available_discontiguous_chunks()
+        }
+        /// `get_descriptor_for_address(addr)`, raw bits.
+        pub fn descriptor(&self, addr: Address) -> usize {
+            super::desc::raw(self.0.get_descriptor_for_address(addr))
+        }
+        /// `prev_link[chunk]` (verification accessor).
+        pub fn prev_link(&self, chunk: usize) -> i32 {
+            self.0.verif_prev_link(chunk)
+        }
+    }
+}
